@@ -60,8 +60,11 @@ def is_send_pgn_ev(ev, ecu, dp, pf, ps, prio, sa):
 
 
 def inv_ecu(ecu):
-    # well-formed listener and timer records
+    # well-formed listener and timer records; every registration is a dict object of its own
     return (forall(lambda j: has_key(ecu._subscribers[j], 'cb') and has_key(ecu._subscribers[j], 'dev_adr'), 0, len(ecu._subscribers))
             and forall(lambda j: has_key(ecu._timer_events[j], 'callback') and has_key(ecu._timer_events[j], 'deadline')
                        and has_key(ecu._timer_events[j], 'delta_time') and has_key(ecu._timer_events[j], 'cookie'),
-                       0, len(ecu._timer_events)))
+                       0, len(ecu._timer_events))
+            and forall(lambda a, b: implies(0 <= a and a < b and b < len(ecu._timer_events), ecu._timer_events[a] != ecu._timer_events[b]))
+            and forall(lambda a, b: implies(0 <= a and a < b and b < len(ecu._subscribers), ecu._subscribers[a] != ecu._subscribers[b]))
+            and no_alias(ecu._timer_events, ecu._subscribers))
